@@ -127,6 +127,20 @@ var xgoPkgs = []Pkg{
 		"Bob.t2spx": "println \"Hi, Bob\"\n",
 		"Tom.t2spx": "println \"Hi, Tom\"\n",
 	}},
+	// compiled through x/build (BuildFSDir), which picks the package of the directory itself
+	{"xbuild-script-and-lib", map[string]string{
+		"main.xgo": "echo add(1, 2)\n",
+		"lib.xgo":  "func add(a, b int) int { return a + b }\n",
+	}},
+	{"xbuild-two-non-main-packages", map[string]string{
+		"a.xgo": "package foo\n\nfunc A() int { return 1 }\n",
+		"b.xgo": "package bar\n\nfunc B() int { return 2 }\n",
+	}},
+	{"xbuild-three-non-main-packages", map[string]string{
+		"a.xgo": "package foo\n\nfunc A() int { return 1 }\n",
+		"b.xgo": "package bar\n\nfunc B() int { return 2 }\n",
+		"c.xgo": "package baz\n\nfunc C() int { return undefinedC }\n",
+	}},
 	// erroneous packages: the error list must be reproducible too
 	{"err-redeclared-across-files", map[string]string{
 		"a.xgo": "func foo() {}\n\nvar v = 1\n\ntype T int\n",
